@@ -773,6 +773,40 @@ func (up4 *UP4) removeGTPTunnelPeer(far far) {
 	up4.unsafeReleaseAllocatedGTPTunnelPeer(tunnelParameters)
 }
 
+// removeStaleGTPTunnelPeers drops the references that the given (updated) FARs still hold on tunnel
+// peers they no longer send to, e.g. after a handover or when the FAR starts buffering.
+func (up4 *UP4) removeStaleGTPTunnelPeers(fars []far) {
+	for _, f := range fars {
+		current := tunnelParams{
+			tunnelIP4Src: ip2int(up4.accessIP.IP),
+			tunnelIP4Dst: f.tunnelIP4Dst,
+			tunnelPort:   f.tunnelPort,
+		}
+		usesCurrent := f.Forwards() && f.dstIntf == ie.DstInterfaceAccess && f.tunnelTEID != 0
+
+		stale := make([]tunnelParams, 0)
+
+		up4.tunnelPeerMu.Lock()
+		for params, peer := range up4.tunnelPeerIDs {
+			if usesCurrent && params == current {
+				continue
+			}
+
+			if peer.usedBy.Contains(tnlPeerReference{f.fseID, f.farID}) {
+				stale = append(stale, params)
+			}
+		}
+		up4.tunnelPeerMu.Unlock()
+
+		for _, params := range stale {
+			old := f
+			old.tunnelIP4Dst = params.tunnelIP4Dst
+			old.tunnelPort = params.tunnelPort
+			up4.removeGTPTunnelPeer(old)
+		}
+	}
+}
+
 // Returns error if we reach maximum supported Application IDs.
 func (up4 *UP4) unsafeAllocateInternalApplicationID() (uint8, error) {
 	if len(up4.applicationIDsPool) == 0 {
@@ -1470,6 +1504,9 @@ func (up4 *UP4) sendUpdate(all PacketForwardingRules, updated PacketForwardingRu
 	if err := up4.modifyUP4ForwardingConfiguration(all.pdrs, all.fars, all.qers, p4.Update_MODIFY); err != nil {
 		return err
 	}
+
+	// the sessions entries point to the new tunnel peers now
+	up4.removeStaleGTPTunnelPeers(updated.fars)
 
 	return nil
 }
